@@ -249,7 +249,10 @@ RulesLoop:
 				break RulesLoop
 			}
 		case corazatypes.AllowTypeAll:
-			break RulesLoop
+			// allow skips all the remaining phases but logging, which always runs
+			if phase != types.PhaseLogging {
+				break RulesLoop
+			}
 		}
 		// Reset matched_vars only when the previous rule actually populated it.
 		// In typical CRS evaluation most rules don't match, so this avoids
